@@ -9,6 +9,8 @@ static DEFAULT_COMPRESSION_LEVEL: Value = Value::Integer(6);
 
 const MAX_COMPRESSION_LEVEL: u32 = 10;
 
+const MAX_BACKEND_COMPRESSION_LEVEL: u32 = 9;
+
 const PARAMETERS: &[Parameter] = &[
     Parameter::required("value", kind::BYTES, "The string to encode."),
     Parameter::optional(
@@ -26,7 +28,9 @@ fn encode_gzip(value: Value, compression_level: Value) -> Resolved {
     let compression_level = if level > MAX_COMPRESSION_LEVEL {
         return Err(format!("compression level must be <= {MAX_COMPRESSION_LEVEL}").into());
     } else {
-        flate2::Compression::new(level)
+        // The zlib backend only implements levels 0-9 and asserts on anything higher:
+        // the highest accepted level selects its best compression.
+        flate2::Compression::new(level.min(MAX_BACKEND_COMPRESSION_LEVEL))
     };
 
     let value = value.try_bytes()?;
@@ -108,7 +112,9 @@ impl FunctionExpression for EncodeGzipFn {
     fn type_def(&self, state: &state::TypeState) -> TypeDef {
         let is_compression_level_valid_constant = if let Some(level) = &self.compression_level {
             match level.resolve_constant(state) {
-                Some(Value::Integer(level)) => level <= i64::from(MAX_COMPRESSION_LEVEL),
+                Some(Value::Integer(level)) => {
+                    (0..=i64::from(MAX_COMPRESSION_LEVEL)).contains(&level)
+                }
                 _ => false,
             }
         } else {
